@@ -61,10 +61,14 @@ impl ReactiveNode for RwLock<EffectInner> {
     }
 
     fn mark_check(&self) {
+        #[cfg(leptos_verif)]
+        crate::verif_yield("effect:mark_check");
         self.write().or_poisoned().observer.notify()
     }
 
     fn mark_dirty(&self) {
+        #[cfg(leptos_verif)]
+        crate::verif_yield("effect:mark_dirty");
         let mut lock = self.write().or_poisoned();
         lock.dirty = true;
         lock.observer.notify()
